@@ -6,6 +6,7 @@ NIC sort with `build`; `spec` shares neither, so a mistake in a shared helper br
 -/
 import PrimaiteModel.Props.C20
 namespace Primaite.Config
+open Primaite.Acl
 
 theorem nodup_of_map_nodup {α β} (f : α → β) : ∀ (l : List α), (l.map f).Nodup → l.Nodup := by
   intro l
@@ -482,14 +483,134 @@ def NodeEquiv (a b : NodeInv) : Prop := { a with software := [] } = { b with sof
 def InvEquiv (a b : Inventory) : Prop :=
   a.links = b.links ∧ a.agents = b.agents ∧ a.game = b.game ∧ a.airspace = b.airspace ∧ Rel₂ NodeEquiv a.nodes b.nodes
 
-/-- what the specification additionally asks of the file: the keys of every `network_interfaces` mapping are the NIC numbers -/
-def SpecWF (s : Scenario) : Prop := ∀ n ∈ s.nodes, NicKeysOk n.nics
+/-! ### ACL rules at their stated positions, router ports, users, folders: the closed form meets the lookup specification -/
 
-theorem declaredNode_meets_spec (d : DefaultsCfg) (n : NodeCfg) (h : NicKeysOk n.nics) :
+/-- **router ACL**: the closed form of the `add_rule` loop over the router's base ACL is, position by position, "the rule the file
+lists under that key, else ARP at 22 / ICMP at 23, else nothing", implicit action deny. -/
+theorem C20_router_acl_by_position (m : Assoc Nat Rule) : declaredAcl routerBaseAcl m = specAclOf .deny routerDefaultAt m := by
+  have hlen : routerBaseAcl.rules.length = aclSlots := by simp [routerBaseAcl, aclSlots]
+  have hdef : ∀ i ∈ List.range aclSlots, (routerBaseAcl.rules[i]?).join = routerDefaultAt i := by decide
+  unfold declaredAcl specAclOf
+  rw [hlen]
+  have e : ∀ A B : List (Option Rule), A = B →
+      ({ routerBaseAcl with rules := A } : Acl) = { rules := B, implicit := .deny } := by intro A B h; subst h; rfl
+  apply e
+  apply List.map_congr_left
+  intro i hi
+  rw [hdef i hi]
+
+/-- **firewall ACLs**: an ACL that starts empty holds, position by position, the rule the file lists under that key, else nothing -/
+theorem C20_empty_acl_by_position (imp : Action) (m : Assoc Nat Rule) :
+    declaredAcl (Acl.empty aclSlots imp) m = specAclOf imp noDefaultAt m := by
+  unfold declaredAcl specAclOf Acl.empty
+  simp only [List.length_replicate]
+  have e : ∀ A B : List (Option Rule), A = B →
+      ({ ({ rules := List.replicate aclSlots none, implicit := imp } : Acl) with rules := A } : Acl) = { rules := B, implicit := imp } := by
+    intro A B h; subst h; rfl
+  apply e
+  apply List.map_congr_left
+  intro i hi
+  have hi' : i < aclSlots := List.mem_range.mp hi
+  simp [List.getElem?_replicate, hi', noDefaultAt]
+
+theorem declaredAcls_meet_spec (n : NodeCfg) :
+    (match n.kind with
+      | .router | .wirelessRouter => [("acl", declaredAcl routerBaseAcl n.acl)]
+      | .firewall => ("acl", routerBaseAcl) :: declaredFwAcls n
+      | _ => []) = specAcls n := by
+  have hbase : routerBaseAcl = specAclOf .deny routerDefaultAt [] := by
+    have := C20_router_acl_by_position []
+    rw [← this]
+    decide
+  have hfw : declaredFwAcls n = specFwAcls.map fun e =>
+      (e.1, specAclOf e.2 noDefaultAt (if n.fwAclPresent then (alookup e.1 n.fwAcl).getD [] else [])) := by
+    unfold declaredFwAcls
+    have : specFwAcls = fwAclNames.map (fun e => (e.1, e.2.1)) := by decide
+    rw [this, List.map_map]
+    apply List.map_congr_left
+    intro e _
+    obtain ⟨nm, imp, mand⟩ := e
+    simp [C20_empty_acl_by_position]
+  unfold specAcls
+  cases n.kind <;> simp [C20_router_acl_by_position, hfw, ← hbase]
+
+/-- **router ports by number**: port k carries the address the file gives under key k -/
+theorem C20_ports_by_number (num : Nat) (m : Assoc Nat IfCfg) : declaredPorts num m = specPorts num m := by
+  unfold declaredPorts specPorts
+  rw [List.range'_eq_map_range, List.map_map]
+  apply List.map_congr_left
+  intro i _
+  simp only [Function.comp, Nat.add_comm 1 i]
+  cases alookup (i + 1) m <;> rfl
+
+theorem find?_key_of_nodup {α} (key : α → String) : ∀ (l : List α), (l.map key).Nodup → ∀ x ∈ l,
+    l.find? (fun y => decide (key y = key x)) = some x := by
+  intro l
+  induction l with
+  | nil => intro _ x hx; simp at hx
+  | cons a t ih =>
+    intro hn x hx
+    simp only [List.map_cons, List.nodup_cons] at hn
+    rcases List.mem_cons.mp hx with rfl | hx
+    · simp
+    · have hne : ¬ key a = key x := fun e => hn.1 (e ▸ List.mem_map_of_mem (f := key) hx)
+      simp only [List.find?_cons, hne, decide_false]
+      exact ih hn.2 x hx
+
+/-- reading a list of named entries back BY NAME gives the list, when names are not repeated -/
+theorem lookup_by_name {α β} (key : α → String) (g : String → α → β) (l : List α) (hn : (l.map key).Nodup) :
+    (l.map key).filterMap (fun k => (l.find? (fun y => decide (key y = k))).map (g k)) = l.map (fun x => g (key x) x) := by
+  rw [List.filterMap_map]
+  have : ∀ (l' : List α), (∀ x ∈ l', x ∈ l) →
+      l'.filterMap ((fun k => (l.find? (fun y => decide (key y = k))).map (g k)) ∘ key) = l'.map (fun x => g (key x) x) := by
+    intro l'
+    induction l' with
+    | nil => intro _; rfl
+    | cons a t ih =>
+      intro h
+      have ha := find?_key_of_nodup key l hn a (h a (by simp))
+      simp only [List.filterMap_cons, Function.comp, ha, Option.map_some, List.map_cons]
+      rw [← ih (fun x hx => h x (by simp [hx]))]
+  exact this l (fun x hx => hx)
+
+/-- **users by name** -/
+theorem C20_users_by_name (n : NodeCfg) (h : ("admin" :: n.users.map (·.name)).Nodup) : declaredUsers n = specUsers n := by
+  unfold declaredUsers specUsers
+  have hn : (n.users.map (·.name)).Nodup := (List.nodup_cons.mp h).2
+  rw [lookup_by_name (·.name) (fun nm u => ({ name := nm, password := u.password, admin := u.admin.getD false } : UserInv)) n.users hn]
+  rfl
+
+/-- **folders and files by name** -/
+theorem C20_folders_by_name (n : NodeCfg) (h : FoldersOk n.folders) : n.folders = specFolders n := by
+  obtain ⟨hn, hf⟩ := h
+  unfold specFolders
+  rw [lookup_by_name (·.name) (fun nm (fd : FolderCfg) =>
+    ({ name := nm, files := (fd.files.map (·.name)).filterMap fun fnm => fd.files.find? (·.name = fnm) } : FolderCfg)) n.folders hn]
+  symm
+  have : ∀ fd ∈ n.folders, (FolderCfg.mk fd.name ((fd.files.map (·.name)).filterMap fun fnm => fd.files.find? (·.name = fnm))) = fd := by
+    intro fd hfd
+    have := lookup_by_name (·.name) (fun _ (f : FileCfg) => f) fd.files (hf fd hfd)
+    simp only [Option.map_id', List.map_id'] at this
+    have e : (fd.files.map (·.name)).filterMap (fun fnm => fd.files.find? (·.name = fnm)) = fd.files := by
+      exact this
+    rw [e]
+  exact (List.map_congr_left this).trans (List.map_id _)
+
+/-- what the specification additionally asks of one node entry: NIC keys are the NIC numbers, user names, folder names and the
+file names of a folder are not repeated -/
+def NodeSpecOk (n : NodeCfg) : Prop :=
+  NicKeysOk n.nics ∧ ("admin" :: n.users.map (·.name)).Nodup ∧ FoldersOk n.folders
+
+def SpecWF (s : Scenario) : Prop := ∀ n ∈ s.nodes, NodeSpecOk n
+
+theorem declaredNode_meets_spec (d : DefaultsCfg) (n : NodeCfg) (h : NodeSpecOk n) :
     NodeEquiv (declaredNode d n) (specNode d n) := by
+  obtain ⟨hnic, hu, hf⟩ := h
   constructor
-  · unfold specNode
-    cases hk : n.kind <;> simp [declaredNode, hk, C20_nics_by_key n.nics h]
+  · have hacl := declaredAcls_meet_spec n
+    unfold specNode
+    simp only [← C20_users_by_name n hu, ← C20_folders_by_name n hf, ← hacl]
+    cases hk : n.kind <;> simp [declaredNode, hk, C20_nics_by_key n.nics hnic, C20_ports_by_number]
   · have : (specNode d n).software = (specSoftware d (n.power.getD .on) n.kind n).map (declaredOuter n) := by unfold specNode; rfl
     rw [this]
     exact (C20_software_meets_spec d _ _ n).map _
@@ -522,9 +643,11 @@ theorem rel₂_flatMap {α β} (R : β → β → Prop) (f g : α → List β) (
     simp only [List.flatMap_cons]
     exact rel₂_append R (h a (by simp)) (ih (fun x hx => h x (by simp [hx])))
 
-theorem officeNode_nics (c : OfficeCfg) (o : ONode) : NicKeysOk (officeNodeCfg c o).nics := by
-  have : NicKeysOk ([] : Assoc Nat IfCfg) := ⟨by simp [keys], by intro k; simp [keys]; omega⟩
-  cases hk : o.kind <;> simpa [officeNodeCfg, hk] using this
+theorem officeNode_nics (c : OfficeCfg) (o : ONode) : NodeSpecOk (officeNodeCfg c o) := by
+  have h0 : NicKeysOk ([] : Assoc Nat IfCfg) := ⟨by simp [keys], by intro k; simp [keys]; omega⟩
+  have hw := officeNode_wf c o
+  refine ⟨?_, hw.users, hw.folders⟩
+  cases hk : o.kind <;> simpa [officeNodeCfg, hk] using h0
 
 /-- **the closed form of the loader meets the specification**: for every scenario whose `network_interfaces` keys are the NIC
 numbers, `declared` and `spec` agree on every item; the software of each node is the same set. -/
@@ -551,6 +674,38 @@ theorem C20_build_meets_spec (s : Scenario) (wf : WellFormed s) (h : SpecWF s) :
     ∃ inv, build s = .ok inv ∧ InvEquiv inv (spec s) :=
   ⟨declared s, C20_build_eq_declared s wf, C20_declared_meets_spec s h⟩
 
+/-! ### the adder wires by object reference, the model by hostname: when the two coincide -/
+
+/-- **by name = by reference under unique hostnames**: attaching a link to interface `port` of "the node named like the i-th node"
+touches exactly the i-th node — which is what the adder does when it holds that node object. -/
+theorem C20_wiring_by_name_is_by_reference : ∀ (nodes : List NodeInv) (i : Nat) (n : NodeInv) (port : Nat),
+    (nodes.map (·.hostname)).Nodup → nodes[i]? = some n →
+    plugAt nodes n.hostname port = nodes.modify i (fun m => plugNode m port) := by
+  intro nodes
+  induction nodes with
+  | nil => intro i n port _ h; simp at h
+  | cons a t ih =>
+    intro i n port hn h
+    simp only [List.map_cons, List.nodup_cons] at hn
+    cases i with
+    | zero =>
+      simp only [List.getElem?_cons_zero, Option.some.injEq] at h
+      subst h
+      simp [plugAt]
+    | succ k =>
+      simp only [List.getElem?_cons_succ] at h
+      have hmem : n ∈ t := List.mem_of_getElem? h
+      have hne : ¬ a.hostname = n.hostname := fun e => hn.1 (e ▸ List.mem_map_of_mem (f := (·.hostname)) hmem)
+      simp [plugAt, hne, ih k n port hn.2 h]
+
+/-- without uniqueness they differ: with two nodes of one hostname the name reaches the FIRST, the adder's reference the second
+(the real loader accepts such a file silently and builds both nodes; `WellFormed` excludes it) -/
+theorem C20_wiring_by_name_needs_unique_hostnames :
+    ∃ (nodes : List NodeInv) (n : NodeInv), nodes[1]? = some n ∧
+      plugAt nodes n.hostname 1 ≠ nodes.modify 1 (fun m => plugNode m 1) := by
+  refine ⟨[declaredNode {} exHost, declaredNode {} exHost], declaredNode {} exHost, rfl, ?_⟩
+  decide
+
 /-! ### non-vacuity, and what a mistake in a shared helper would look like -/
 
 /-- a decidable form of `NicKeysOk` for concrete mappings -/
@@ -571,7 +726,7 @@ game, airspace) meets the specification's extra condition, so everything above a
 theorem exFull_specwf : SpecWF exFull := by
   intro n hn
   simp only [exFull, exScenario, List.mem_cons, List.not_mem_nil, or_false] at hn
-  rcases hn with rfl | rfl | rfl <;> exact nicKeysOk_of_B _ (by decide)
+  rcases hn with rfl | rfl | rfl <;> exact ⟨nicKeysOk_of_B _ (by decide), by decide, by decide⟩
 
 example : ∃ inv, build exFull = .ok inv ∧ InvEquiv inv (spec exFull) := C20_build_meets_spec _ exFull_wf exFull_specwf
 
@@ -581,6 +736,18 @@ example : (specNics exHost.nics).map (·.ip) = [some 0xC0A80B0A#32, some 0xAC100
 /-- the database server carries its FTP client (brought along, bare), and the configured database service with its options -/
 example : ((specSoftware {} .on .server exHost).map (·.name)).length = 11 ∧
     "ftp-client" ∈ (specSoftware {} .on .server exHost).map (·.name) := by decide
+
+/-- the router of the running example, read by position: the deny rule at 3, HTTP at 21, ARP (default) at 22, the file's ICMP
+rule at 23, nothing elsewhere; implicit deny -/
+example : ((specAclOf .deny routerDefaultAt exRouter.acl).rules.zipIdx.filterMap fun (r, i) => r.map fun _ => i) = [3, 21, 22, 23] := by
+  decide
+
+/-- a loader that shifted every rule by one position would not meet the position-by-position reading -/
+theorem C20_shifted_acl_does_not_meet_spec :
+    declaredAcl routerBaseAcl (exRouter.acl.map fun e => (e.1 + 1, e.2)) ≠ specAclOf .deny routerDefaultAt exRouter.acl := by decide
+
+example : specUsers exHost = [⟨"admin", "admin", true⟩, ⟨"alice", "pw", true⟩] := by decide
+example : specFolders exHost = exHost.folders := by decide
 
 /-- what a mistake in a helper that `build` and `declared` share would look like: were the NICs NOT sorted by key (the loader
 before F-52), `declared` would follow — and disagree with the specification. -/
